@@ -16,6 +16,7 @@ def run(tier, seed, update_lock=False):
         R.prove(u)
     for u in units:
         R.canary_check(u)
+    R.conformance('C10.py', units[1:])
     R.bounded('cluster.py', 'run-time contracts: assign_to_nearest_center / find_cluster_centers on the real code',
               'data sets <= 7 points (+300-frame scale case), centre lists of 1..3 frames and 2n off-data centres, all label vectors len<=5 over 3 labels', args=['--only=assign,find,scale'])
     R.bounded('C10.py', 'run-time contracts: partition_list / partition_indices / ClusterResult.partition / predict on the real code',
